@@ -43,9 +43,12 @@ func runC15Case(c cfg, seed uint64, keys map[string]struct{}) (evals int64) {
 		return 0
 	}
 	defer func() { _ = life.stop(10 * time.Second) }()
+	// OnBoot runs before the loops are registered: wait until the engine has all of them
+	waitCondQuick(3*time.Second, func() bool { return gnet.VerifNumLoops(life.eng) == c.Loops })
 	N := gnet.VerifNumLoops(life.eng)
 	if N != c.Loops {
 		res.Inconc("c15: engine has %d loops, wanted %d", N, c.Loops)
+		return 0
 	}
 	// connect one at a time, waiting for each OnOpen: the i-th accept is the i-th call of next()
 	openOne := func(laddr net.Addr) (net.Conn, *connState) {
